@@ -1379,6 +1379,21 @@ def mon_C19(case):
         if x.startswith("rdx get-succeeded"):
             return [(0, "a connection was established although every named server hangs up")]
     fam = ws[1]
+    if fam == "node":
+        # rdin node <arm> <present> <db> <user|-> <pass|->: what the fake master must have seen
+        arm, present, db, user, pw = ws[2:7]
+        route = {"u": "from_urls(..).with_node_connection_info(..)", "s": "urls", "c": "connections"}.get(arm, arm)
+        if not o.startswith("rdout node auth="):
+            return [(0, f"sentinel config (sentinels named by {route}): pool could not be built / used: {o[:80]}")]
+        r = kvs(o)
+        want_auth = "-" if (present != "1" or pw == "-") else f"{user}:{pw}"
+        want_db = db if present == "1" else "0"
+        if r.get("auth") != want_auth or r.get("db") != want_db:
+            return [(0, f"sentinel config with node_connection_info (db {db}, user {user}, password {pw}; sentinels named by {route}): "
+                        f"the monitored server was sent AUTH {r.get('auth')} / SELECT {r.get('db')}, expected AUTH {want_auth} / SELECT {want_db}")]
+        if r.get("sentinel") != "asked":
+            return [(0, f"sentinel config (sentinels named by {route}): the named sentinel {r.get('sentinel')}")]
+        return []
     if fam == "cfg":
         i = kvs(case["in"])
         def lst(v):
